@@ -91,8 +91,14 @@ def _c06_worker(args):
         routes = gen.gen_routes(rng, nj, nm, maxd=rng.choice([3, 9, 99]), repeats=(rng.random() < 0.3),
                                 zero_p=rng.choice([0.0, 0.2, 0.6]))
         inst, _ = jsl.compile_dict(classic_dict(routes), cfg)
-        lb = calculate_lower_bound(inst)
-        tm = get_max_allowed_time(inst)
+        try:
+            lb = calculate_lower_bound(inst)
+            tm = get_max_allowed_time(inst)
+        except Exception as e:  # noqa
+            out["violations"].append({"kind": "lb:raises", "detail": "calculate_lower_bound/get_max_allowed_time raised %s on a "
+                                      "valid %dx%d instance" % (type(e).__name__, nj, nm), "replay": {"routes": routes},
+                                      "facts": {"exception": type(e).__name__}})
+            continue
         m = drv.ask("LB " + routes_sx(routes))
         out["lb_cases"] += 1
         out["sizes"]["%dx%d" % (nj, nm)] += 1
@@ -106,7 +112,12 @@ def _c06_worker(args):
         routes = gen.gen_routes(rng, nj, nm, maxd=maxd, repeats=False, zero_p=0.1)
         d = classic_dict(routes)
         inst, _ = jsl.compile_dict(d, cfg)
-        lb = calculate_lower_bound(inst)
+        try:
+            lb = calculate_lower_bound(inst)
+        except Exception as e:  # noqa
+            out["violations"].append({"kind": "lb:raises", "detail": "calculate_lower_bound raised %s" % type(e).__name__,
+                                      "replay": {"routes": routes}, "facts": {"exception": type(e).__name__}})
+            continue
         opt = brute_opt(routes)
         out["opt_cases"] += 1
         if lb > opt:
@@ -736,6 +747,10 @@ def gen_doc(rng, big=False):
                 ren[b["name"]] = "b-%d" % n
                 b["name"] = "b-%d" % n
         feats["renumbered_buffers"] = True
+    # the logistics type key is optional
+    if "logistics" in ic and rng.random() < 0.4:
+        ic["logistics"].pop("type", None)
+        feats["logistics_type_omitted"] = True
     # matrix rows in another order than the header columns (each row keeps its own label)
     if "logistics" in ic and rng.random() < 0.4:
         ls = [l for l in ic["logistics"]["specification"].split("\n") if l.strip()]
@@ -1162,6 +1177,45 @@ def c16(ctx):
             ctx.viol("spec:raises", "spec file %s: %s" % (f.name, type(e).__name__), {"file": str(f)},
                      facts={"exception": type(e).__name__})
     ctx.coverage["spec_files_compared_with_dsl"] = n
+    # generated spec files in layout variants (comment lines, blank lines after the header / between rows / at the
+    # end, extra blanks and tabs): each must compile to the problem its rows describe
+    tmpd = ctx.verif / "work" / "tmp_spec"
+    tmpd.mkdir(parents=True, exist_ok=True)
+    nv = 0
+    for k in range(20 if ctx.quick() else 200):
+        nj, nm = rng.randint(1, 6), rng.randint(2, 5)
+        routes = gen.gen_routes(rng, nj, nm, zero_p=0.0)
+        lines = ["# generated", "#+++ two tokens"] if rng.random() < 0.5 else []
+        lines.append("%d %d" % (nj, nm))
+        if rng.random() < 0.4:
+            lines.append("")
+        for r in routes:
+            sep = rng.choice([" ", "  ", "\t"])
+            lines.append(rng.choice(["", " "]) + sep.join("%d%s%d" % (m, sep, dd) for m, dd in r) + rng.choice(["", " ", "  "]))
+            if rng.random() < 0.25:
+                lines.append(rng.choice(["", "   "]))
+        text = "\n".join(lines) + rng.choice(["", "\n", "\n\n"])
+        f = tmpd / ("gen_%d_%d" % (ctx.seed % 100000, k))
+        f.write_text(text)
+        try:
+            repo = SpecRepository(dir=f, loglevel="error", config=cfg)
+            i1, s1 = Compiler(cfg, loglevel="error", repo=repo).compile()
+            i2, s2 = jsl.compile_dict(classic_dict(routes), cfg)
+            c1, c2 = jsl.Codec(i1, True), jsl.Codec(i2, True)
+            nv += 1
+            if c1.inst_sx != c2.inst_sx or c1.state(s1) != c2.state(s2):
+                ctx.viol("spec:differs", "a generated spec file (layout variant) and the equivalent DSL text compile to "
+                         "different problems (%d jobs written, %d compiled)" % (nj, len(i1.instance.specification)),
+                         {"spec_text": text})
+        except Exception as e:  # noqa
+            ctx.viol("spec:raises", "generated spec file (layout variant): %s" % type(e).__name__, {"spec_text": text},
+                     facts={"exception": type(e).__name__, "generated": True})
+        finally:
+            try:
+                f.unlink()
+            except OSError:
+                pass
+    ctx.coverage["generated_spec_layout_variants"] = nv
 
 
 def c17(ctx):
@@ -1211,7 +1265,8 @@ def c13(ctx):
         d, feats = gen.gen_instance(rng, prof)
         acts = [1 if rng.random() < 0.8 else 0 for _ in range(rng.randint(5, 60))]
         cases.append({"dsl": d, "cfg": {"early": rng.random() < 0.6, "trunc_active": False},
-                      "seed": rng.randint(0, 1000), "actions": acts, "resets": rng.choice([0, 1, 2]),
+                      "seed": rng.choice([0, 0, 1, rng.randint(2, 1000), rng.randint(2, 2**31 - 1)]),   # boundary seeds on purpose
+                      "actions": acts, "resets": rng.choice([0, 1, 2]),
                       "stochastic": prof == "stoch"})
     # deterministic instances additionally with another seed: the outcome must not depend on the seed at all
     variants = []
